@@ -89,6 +89,70 @@ pub open spec fn rfc_dkp_from<KG: KeGroup, OC: voprf::CipherSuite>(seed: Seq<u8>
 pub open spec fn rfc_derive_dh_keypair<KG: KeGroup, OC: voprf::CipherSuite>(seed: Seq<u8>) -> Result<KG::Sk, InternalError> {
     rfc_dkp_from::<KG, OC>(seed, 0)
 }
+/// (proved) the derived key is non-zero, a failure is never a Custom error
+pub proof fn lemma_rfc_dkp_from_nonzero<KG: KeGroup, OC: voprf::CipherSuite>(seed: Seq<u8>, counter: int)
+    ensures
+        rfc_dkp_from::<KG, OC>(seed, counter) is Ok ==> !KG::sk_is_zero(rfc_dkp_from::<KG, OC>(seed, counter)->Ok_0),
+        rfc_dkp_from::<KG, OC>(seed, counter) is Err ==> !(rfc_dkp_from::<KG, OC>(seed, counter)->Err_0 is Custom),
+    decreases 256 - counter
+{
+    if 0 <= counter <= 255 {
+        match KG::h2s::<OC::Hash>(rfc_dkp_input(seed, counter), rfc_dkp_dst::<OC>()) {
+            Err(_) => {},
+            Ok(s) => if KG::sk_is_zero(s) { lemma_rfc_dkp_from_nonzero::<KG, OC>(seed, counter + 1); },
+        }
+    }
+}
+pub proof fn lemma_rfc_dkp_nonzero<KG: KeGroup, OC: voprf::CipherSuite>(seed: Seq<u8>)
+    ensures
+        rfc_derive_dh_keypair::<KG, OC>(seed) is Ok ==> !KG::sk_is_zero(rfc_derive_dh_keypair::<KG, OC>(seed)->Ok_0),
+        rfc_derive_dh_keypair::<KG, OC>(seed) is Err ==> !(rfc_derive_dh_keypair::<KG, OC>(seed)->Err_0 is Custom),
+{ lemma_rfc_dkp_from_nonzero::<KG, OC>(seed, 0); }
+
+// ---- the NIST blanket impl `impl<G: GroupDigest> KeGroup for G`: its spec functions, stated over the elliptic_curve shim only ----
+// (an impl may not refer to functions bounded by the trait it implements: Verus rejects the cycle; the equality with the
+//  KeGroup-generic RFC functions is proved below, outside the impl)
+pub open spec fn ec_h2s<G: elliptic_curve::GroupDigest, H>(input: Seq<u8>, dst: Seq<u8>) -> Result<G::Sc, InternalError> {
+    match G::h2s_xmd::<elliptic_curve::ExpandMsgXmd<H>>(input, dst) {
+        Some(s) => if elliptic_curve::Field::zero(&s) { Err(InternalError::HashToScalar) } else { Ok(s) },
+        None => Err(InternalError::HashToScalar),
+    }
+}
+pub open spec fn ec_dkp_from<G: elliptic_curve::GroupDigest, OC: voprf::CipherSuite>(seed: Seq<u8>, counter: int) -> Result<G::Sc, InternalError>
+    decreases 256 - counter
+{
+    if counter > 255 || counter < 0 { Err(InternalError::OprfError(voprf::Error::DeriveKeyPair)) } else {
+        match ec_h2s::<G, OC::Hash>(rfc_dkp_input(seed, counter), rfc_dkp_dst::<OC>()) {
+            Err(_) => Err(InternalError::OprfError(voprf::Error::DeriveKeyPair)),
+            Ok(s) => if !elliptic_curve::Field::zero(&s) { Ok(s) } else { ec_dkp_from::<G, OC>(seed, counter + 1) },
+        }
+    }
+}
+pub proof fn lemma_ec_dkp_nonzero<G: elliptic_curve::GroupDigest, OC: voprf::CipherSuite>(seed: Seq<u8>, counter: int)
+    ensures
+        ec_dkp_from::<G, OC>(seed, counter) is Ok ==> !elliptic_curve::Field::zero(&ec_dkp_from::<G, OC>(seed, counter)->Ok_0),
+        ec_dkp_from::<G, OC>(seed, counter) is Err ==> !(ec_dkp_from::<G, OC>(seed, counter)->Err_0 is Custom),
+    decreases 256 - counter
+{
+    if 0 <= counter <= 255 {
+        match ec_h2s::<G, OC::Hash>(rfc_dkp_input(seed, counter), rfc_dkp_dst::<OC>()) {
+            Err(_) => {},
+            Ok(s) => if elliptic_curve::Field::zero(&s) { lemma_ec_dkp_nonzero::<G, OC>(seed, counter + 1); },
+        }
+    }
+}
+/// (proved) for the NIST impl, derive_spec IS the RFC's DeriveDiffieHellmanKeyPair instantiated with this group
+pub proof fn lemma_ec_dkp_is_rfc<G: elliptic_curve::GroupDigest, OC: voprf::CipherSuite>(seed: Seq<u8>, counter: int)
+    ensures ec_dkp_from::<G, OC>(seed, counter) == rfc_dkp_from::<G, OC>(seed, counter)
+    decreases 256 - counter
+{
+    if 0 <= counter <= 255 {
+        match ec_h2s::<G, OC::Hash>(rfc_dkp_input(seed, counter), rfc_dkp_dst::<OC>()) {
+            Err(_) => {},
+            Ok(s) => if elliptic_curve::Field::zero(&s) { lemma_ec_dkp_is_rfc::<G, OC>(seed, counter + 1); },
+        }
+    }
+}
 
 // ---- RFC 9807 4.1: envelope ------------------------------------------------------------------------------
 pub open spec fn rfc_auth_key<CS: CipherSuite>(rp: Seq<u8>, nonce: Seq<u8>) -> Seq<u8> { <OprfHash<CS> as Digest>::expand(rp, nonce + s_auth_key(), nh::<CS>()) }
